@@ -625,6 +625,7 @@ fn parse_wreq(x: &X) -> Result<WReq, X> {
         || (tr != 2 && authority.is_some())
         || (flags & 2 != 0 && flags & 4 != 0)
         || flags >= 8
+        || !path.starts_with(b"/")
         || !(path.starts_with(b"/h") || (method == b"GET" && flags < 2))
     {
         return Err(X::bad());
